@@ -1,6 +1,6 @@
 (* C18/Corr.v -- correspondence checkers (executed at Q by the shards). *)
 From Coq Require Import ZArith QArith List Bool Arith.
-From Verif Require Import Base.Num Base.Check Lib.Axis C18.Model C18.CisQ C18.ModelW.
+From Verif Require Import Base.Num Base.Check Lib.Axis C18.Model C18.CisQ C18.ModelW C18.ModelH.
 Import ListNotations.
 
 (* np.pi as the exact rational of the double *)
@@ -172,3 +172,12 @@ Definition check_wflat (k : case_wflat) : bool :=
   qs_eqb (v_flat k) (flatten (v_coeffs k))
   && shapes_eqb (v_shapes k) (shapes_of (v_coeffs k))
   && coeffs_eqb (v_unflat k) (unflatten (v_shapes k) (v_flat k)).
+
+(* ---- Haar / periodization numerics against WaveletTransform('haar', pad_mode='pywt_periodic') ---- *)
+Definition r2Q : Q := 6369051672525773 # 4503599627370496.     (* the double nearest to sqrt 2 *)
+Record case_haar := { h_L : nat; h_x : list Q; h_fwd : list Q;      (* W(x) *)
+                      h_c : list Q; h_inv : list Q }.                (* W.inverse(c) *)
+Definition htol : Q := 1 # 1000000000000.
+Definition check_haar (k : case_haar) : bool :=
+  Qsclose htol htol (h_fwd k) (haar r2Q (h_L k) (h_x k))
+  && Qsclose htol htol (h_inv k) (ihaar r2Q (h_L k) (length (h_x k)) (h_c k)).
